@@ -138,6 +138,32 @@ def initGenesisCore (h160 : Bytes → Bytes) (g : LGenesis) : State × List Upda
 def initGenesis (h160 : Bytes → Bytes) (g : LGenesis) : Outcome (State × List Update) :=
   if g.tokens.any (fun t => t.2.threshold < 0) then .panic "negative-coin" else .ok (initGenesisCore h160 g)
 
+/-! ### the derived collections as functions of the primary data (monitor for C18) -/
+
+/-- status ∈ {Active, Pending} -/
+def isAP (v : Validator) : Bool := v.status == .active || v.status == .pending
+
+/-- `Locking` index determined by the validators: the holdings of the Active/Pending ones -/
+def idxOf (kvs : List (Bytes × Validator)) : List ((String × Bytes) × Int) :=
+  kvs.flatMap (fun e => if isAP e.2 then e.2.locking.map (fun c => ((c.1, e.1), c.2)) else [])
+/-- `ValidatorSet` determined by the validators: address ↦ power of the Active ones -/
+def valsetOf (kvs : List (Bytes × Validator)) : List (Bytes × Nat) :=
+  (kvs.filter (fun e => e.2.status == .active)).map (fun e => (e.1, e.2.power))
+/-- `PowerRanking` determined by the validators: Active/Pending with positive power -/
+def rankOf (kvs : List (Bytes × Validator)) : List (Nat × Bytes) :=
+  (kvs.filter (fun e => isAP e.2 && decide (e.2.power > 0))).map (fun e => (e.2.power, e.1))
+/-- the non-zero token thresholds -/
+def thresholdsOf (toks : List (String × Token)) : List (String × Int) :=
+  (toks.filter (fun t => t.2.threshold != 0)).map (fun t => (t.1, t.2.threshold))
+
+/-- executable form of `C18.Derived`: the four derived collections are the functions above of the
+    primary data (as sets, without repeated keys; the threshold list sorted by denom) -/
+def derivedOk (s : State) : Bool :=
+  sameSet s.lockingIdx (idxOf s.validators) && decide ((s.lockingIdx.map (·.1)).Nodup) &&
+  sameSet s.ranking (rankOf s.validators) && decide s.ranking.Nodup &&
+  sameSet s.valset (valsetOf s.validators) && decide ((s.valset.map (·.1)).Nodup) &&
+  decide (s.threshold.Pairwise (fun x y => x.1 < y.1)) && sameSet s.threshold (thresholdsOf s.tokens)
+
 /-- the address oracle read off a state: the store key under which a public key is filed -/
 def keyOracle (s : State) : Bytes → Bytes :=
   fun pk => ((s.validators.find? (fun e => e.2.pubkey == pk)).map (·.1)).getD []
@@ -297,6 +323,12 @@ def addrOracle (s : Relayer.State) : Bytes → String :=
 /-- the boarding queue determined by the voter records' status, in key order -/
 def statusQueue (s : Relayer.State) (st : VStatus) : List String :=
   ((sortRecs s.recs).filter (fun e => e.2.status == st)).map (·.1)
+
+/-- executable form of `C18.QueueDerived`: the boarding queue holds exactly the records with the
+    corresponding status -/
+def queueOk (s : Relayer.State) : Bool :=
+  sameSet s.onBoarding ((s.recs.filter (fun e => e.2.status == .onBoarding)).map (·.1)) &&
+  sameSet s.offBoarding ((s.recs.filter (fun e => e.2.status == .offBoarding)).map (·.1))
 
 /-- executable round-trip check for x/relayer -/
 def relayerRoundTripOk (addrOf : Bytes → String) (decodable : String → Bool) (s : Relayer.State) : Bool :=
